@@ -128,6 +128,65 @@ theorem retention_bound (c : Cfg) (ops : List Op) (hm : c.maxFiles > 0) :
     ((prune c (run c {} ops)).dir.filterMap tsOf).length ≤ c.maxFiles :=
   (prune_bound (ord_run c ops {} (ord_init c)) hm).2
 
+theorem prune_fd_bw (c : Cfg) (s : St) : (prune c s).fd = s.fd ∧ (prune c s).bytesWritten = s.bytesWritten := by
+  unfold prune; split <;> exact ⟨rfl, rfl⟩
+
+theorem open_resets (c : Cfg) (s : St) (h : s.fd = none) : (openFile c s).bytesWritten = 0 := by
+  unfold openFile
+  simp only [h]
+  split <;> rfl
+
+/-- after a successful `rotate()` the active file's counter is below MaxBytes (MaxBytes > 0): either
+the condition did not hold, or a file was (re)opened and the counter restarted at zero -/
+theorem rotate_below (c : Cfg) (s s2 : St) (el : Nat) (hm : c.maxBytes > 0) (h : rotate c s el = (s2, .ok)) :
+    s2.bytesWritten < c.maxBytes := by
+  unfold rotate at h
+  cases hn : needRotate c s.bytesWritten el with
+  | false =>
+    simp only [hn, Bool.false_eq_true, if_false, Prod.mk.injEq, and_true] at h
+    subst h
+    unfold needRotate at hn
+    simp only [Bool.or_eq_false_iff, Bool.and_eq_false_iff, decide_eq_false_iff_not] at hn
+    rcases hn.1 with h1 | h1 <;> omega
+  | true =>
+    simp only [hn, if_true] at h
+    cases ht : c.tsOnly with
+    | true =>
+      simp only [ht, if_true] at h
+      cases hl : lookup (closeFd s).dir .plain with
+      | none => simp [hl] at h
+      | some i =>
+        simp only [hl, Prod.mk.injEq, and_true] at h
+        subst h
+        rw [open_resets c _ (by rw [(prune_fd_bw c _).1]; rfl)]
+        exact hm
+    | false =>
+      simp only [ht, Bool.false_eq_true, if_false, Prod.mk.injEq, and_true] at h
+      subst h
+      rw [open_resets c _ (by rw [(prune_fd_bw c _).1]; rfl)]
+      exact hm
+
+/-- **Size trigger, seen from the file**: with MaxBytes > 0 an acknowledged write never lands in a
+file that, since the sink opened it, already held MaxBytes or more — the counter after the write is
+below MaxBytes plus the size of that one event (the limit can be overshot by one event, never by two). -/
+theorem write_below_limit (c : Cfg) (s s' : St) (ev size el : Nat) (hm : c.maxBytes > 0)
+    (h : step c s (.write ev size el) = (s', .ok)) : s'.bytesWritten < c.maxBytes + size := by
+  simp only [step] at h
+  generalize hr : rotate c (openFile c s) (if s.fd.isNone = true then 0 else el) = r at h
+  obtain ⟨s2, res⟩ := r
+  cases res with
+  | ok =>
+    cases hfd : s2.fd with
+    | none => simp [hfd] at h
+    | some i =>
+      simp only [hfd, Prod.mk.injEq, and_true] at h
+      subst h
+      have := rotate_below c _ s2 _ hm hr
+      simp only [appendTo]
+      omega
+  | errRotate => simp at h
+  | errFormat => simp at h
+
 /-- a file is created with the configured mode (0600 when unset) -/
 theorem created_mode (c : Cfg) (s : St) (h : s.fd = none)
     (hnew : lookup s.dir (openName c s) = none) :
@@ -154,6 +213,10 @@ example : ((run ⟨100, 1, 0, true, 0⟩ {} demoOps).dir, contents (run ⟨100, 
     ([(Name.ts 2, 1), (Name.plain, 3)], [1, 2, 3, 4, 5]) := by decide
 example : contents (run ⟨100, 1, 0, true, 0⟩ {} (demoOps ++ [.write 6 60 0, .write 7 60 0, .write 8 60 0])) = [3, 4, 5, 6, 7, 8] := by decide
 example : (run ⟨100, 1, 0, false, 0⟩ {} demoOps).dir = [(Name.ts 1, 1), (Name.ts 2, 2), (Name.ts 3, 3)] := by decide
+-- the size bound is attained: 60 + 60 bytes in a file limited to 100, then a rotation
+example : (step ⟨100, 1, 0, true, 0⟩ (run ⟨100, 1, 0, true, 0⟩ {} [.write 1 60 0]) (.write 2 60 0)).2 = .ok ∧
+    (run ⟨100, 1, 0, true, 0⟩ {} [.write 1 60 0, .write 2 60 0]).bytesWritten = 120 ∧
+    (run ⟨100, 1, 0, true, 0⟩ {} [.write 1 60 0, .write 2 60 0, .write 3 60 0]).bytesWritten = 60 := by decide
 -- the retention bound is not vacuous: three files listed, pruneFiles keeps the newest one
 example : (prune ⟨100, 1, 0, false, 0⟩ (run ⟨100, 1, 0, false, 0⟩ {} demoOps)).dir = [(Name.ts 3, 3)] := by decide
 
